@@ -514,6 +514,58 @@ example : C11.clsOf (attempt {} { rcpts := [.code 250, .code 250], eod := .code 
 
 end smtphop
 
+/-! ## Two hosts: delivered on the sending side means never lost on the receiving side (C11 ∘ C02 ∘ C16 ∘ C01) -/
+section twohosts
+open Slimta.QM Slimta.Ingress Slimta.Policy Slimta.Relay
+open Slimta.Attempt (Rcpt)
+open Slimta.Sched (sIds)
+
+theorem all_ok_smtp_250 (ws : List Write) (h : ∀ w ∈ ws, w = .ok) : smtpSees (enqueue ws) = 250 := by
+  cases he : enqueue ws with
+  | none =>
+    exfalso
+    simp only [enqueue] at he
+    split at he
+    · rename_i hc
+      have hm : Write.otherExc ∈ ws := by simpa using hc
+      have := h _ hm
+      simp at this
+    · simp at he
+  | some rs =>
+    have hids := (enqueue_all_ids ws rs he).mpr h
+    have hfe : firstError rs = none := firstError_none.mpr hids
+    simp [smtpSees, smtpReply, hfe, replyCode]
+
+variable {fb : Bool} {pre : List (Nat × Nat)} {rc : Nat → List Rcpt} {nn0 : Nat → Bool} {att : Nat → Nat}
+
+/-- **A message the sending host's relay reports delivered is never lost by the receiving host's queue**: host A's SMTP relay talks
+    to host B's SMTP edge, whose reply to the message data is chosen from B's enqueue results. If A's relay reports some recipient
+    delivered, then — in every state of every history of B's queue machine in which the writes of that enqueue call have happened —
+    every recipient of the message as B's edge received it is delivered, failed for good (and bounced when bounces are produced) or
+    outstanding with a next step on B, counted in exactly one of the three. -/
+theorem delivered_upstream_never_lost_downstream (rcfg : Relay.Cfg) (hl : rcfg.lmtp = false) (s : Script)
+    (cfg : Policy.Cfg) (ps : List Pol) (e : Policy.Env) (ws : List W) (now : Nat) (nn relay : Bool)
+    (hlen : ws.length = (runPolicies cfg ps e).length)
+    (hw : WriteErrCodes (ws.map W.toWrite))
+    (heod : s.eod = .code (smtpCode (call cfg ps e ws now nn relay)))
+    (i : Nat) (hi : C11.clsOf (attempt rcfg s) i = some .ok)
+    (hpre : (pre.map (·.1)).Nodup) (hrc : ∀ id ∈ pre.map (·.1), (rc id).Nodup)
+    {q : State} {ls : List Label} (hr : ReachT fb (startAt pre rc nn0 att) ls q)
+    (hdone : ∀ l ∈ writeLabels now nn (runPolicies cfg ps e) ws, l ∈ ls)
+    (x : Nat) (hx : x ∈ slots e) :
+    ∃ id, W.ok id ∈ ws ∧
+      (q.delivered id).count x + ((q.failed id).map Prod.fst).count x + (outstanding q.s.rem q id).count x = 1 ∧
+      (x ∈ q.delivered id ∨
+       (∃ rp, (x, rp) ∈ q.failed id ∧ ((fb && nn) = true → ∃ b ∈ q.bounces id, b.reply = rp ∧ x ∈ b.rcpts)) ∨
+       (x ∈ outstanding q.s.rem q id ∧ id ∈ sIds q.s ∧ (id ∈ q.s.known → C12.Whereabouts q.s id))) := by
+  have hall := smtp_hop_delivered_means_custody rcfg hl s (ws.map W.toWrite) hw heod i hi
+  have hack : smtpCode (call cfg ps e ws now nn relay) / 100 = 2 := by
+    show smtpSees (enqueue (ws.map W.toWrite)) / 100 = 2
+    rw [all_ok_smtp_250 _ hall]
+  exact acknowledged_recipient_never_lost cfg ps e ws now nn relay hlen hw (Or.inl hack) hpre hrc hr hdone x hx
+
+end twohosts
+
 /-! Non-vacuity -/
 example : smtpReply [.id, .queueError none, .id] = 451 ∧ wsgiStatus [.id, .queueError (some 552)] = 500 ∧
     smtpReply [.id, .id] = 250 := by decide
